@@ -571,6 +571,39 @@ def section_arrays(t: Tally, ctx: Ctx):
             t.fail("read_exact", f"read_exact(<{avail} bytes>, {n}) misbehaved", {"fn": "read_exact", "n": n, "avail": avail})
 
 
+def section_dst(t: Tally, ctx: Ctx):
+    """Timestamp writers on aware datetimes of DST-observing zones: both fold twins of a repeated wall-clock time, and both
+    sides of an offset change on one local day, written one after the other (in both orders)."""
+    import datetime as _dt
+    import zoneinfo
+
+    R, W = _R(), _W()
+    from ..strategies import DST_INSTANTS
+
+    epoch = _dt.datetime(1970, 1, 1, tzinfo=_dt.timezone.utc)
+    for zone in ("Europe/Paris", "America/New_York", "Australia/Lord_Howe", "Europe/Berlin"):
+        try:
+            tz = zoneinfo.ZoneInfo(zone)
+        except Exception:
+            continue
+        for order in (DST_INSTANTS, DST_INSTANTS[::-1]):
+            for ms in order:
+                for extra_ms in (0, 1, 999):
+                    dt = (epoch + _dt.timedelta(milliseconds=ms + extra_ms)).astimezone(tz)
+                    for name, w in (("datetime_i64", W.write_datetime_i64), ("datetime_i64_nullable", W.write_nullable_datetime_i64)):
+                        t.evals += 1
+                        t.nontrivial.add(case_hash(("dst", zone, ms + extra_ms, name)))
+                        want = be(ms + extra_ms, 8, True)
+                        try:
+                            got = wr(w, dt)
+                        except Exception as e:
+                            t.fail(f"{name}:writer-raised:{type(e).__name__}", f"{w.__name__}({dt!r} fold={dt.fold}) raised {e!r}", {"fn": name, "zone": zone, "ms": ms + extra_ms})
+                            continue
+                        if got != want:
+                            t.fail(f"{name}:writer-bytes:dst", f"{w.__name__}({dt.isoformat()} fold={dt.fold}, {zone}) = {got.hex()}, the instant is {ms + extra_ms} ms = {want.hex()}",
+                                   {"fn": name, "zone": zone, "ms": ms + extra_ms})
+
+
 def section_misc(t: Tally, ctx: Ctx):
     R, W = _R(), _W()
     from kio.schema.errors import ErrorCode
@@ -648,7 +681,7 @@ def section_misc(t: Tally, ctx: Ctx):
     run_ts()
 
 
-SECTIONS = [section_fixed_ints, section_float, section_varints, section_strings, section_arrays, section_misc]
+SECTIONS = [section_fixed_ints, section_float, section_varints, section_strings, section_arrays, section_misc, section_dst]
 
 
 def public_functions() -> dict:
